@@ -63,6 +63,9 @@ func buildOverlay(repo, root string, dirs []string, replay bool, scratch string)
 		files, _ := filepath.Glob(filepath.Join(root, d, "*.go"))
 		pkgName := ""
 		for _, f := range files {
+			if (replay && strings.HasSuffix(f, "_symonly.go")) || (!replay && strings.HasSuffix(f, "_replayonly.go")) {
+				continue
+			}
 			src, err := os.ReadFile(f)
 			if err != nil {
 				return nil, nil, err
